@@ -29,7 +29,29 @@ Example C41_old_behaviour_missed :
   let t := [(0, [1; 0]); (1, [])]%nat in refused t 0%nat = true /\ reach t 0%nat [1; 0]%nat.
 Proof. split; [vm_compute; reflexivity|apply r_here; right; now left]. Qed.
 
-(* PARTIAL: the other clauses of C41 (a call runs the most recently defined body once, lines in order; a started macro
-   may not be edited or removed) need the interpreter model and are not covered; the run stream of the check observes on
+(* The interpreter's side (model/Interp.v, validated tick by tick against the real PInterpreter on generated methods with
+   macro definitions, redefinitions, calls in blocks and watch bodies): a call runs the body of the Macro node REGISTERED
+   LAST under that name; a call of an undefined macro, or one the recursion search refuses, fails without running a line. *)
+Theorem C41_latest_definition_wins : forall l nm m, Interp.macro_lookup (Interp.macro_put l nm m) nm = Some m.
+Proof. exact latest_definition_wins. Qed.
+Print Assumptions C41_latest_definition_wins.
+Theorem C41_other_macros_untouched_by_a_definition : forall l nm m nm', nm' <> nm ->
+  Interp.macro_lookup (Interp.macro_put l nm m) nm' = Interp.macro_lookup l nm'.
+Proof. exact other_names_untouched. Qed.
+Print Assumptions C41_other_macros_untouched_by_a_definition.
+Theorem C41_undefined_call_fails : forall p e b n nm k s,
+  Interp.n_kind (Interp.nd p n) = Interp.KCallMacro nm -> Interp.macro_lookup (Interp.macros s) nm = None ->
+  Interp.dispatch p e b n k s = Interp.Raise k s.
+Proof. exact undefined_call_fails. Qed.
+Print Assumptions C41_undefined_call_fails.
+Theorem C41_recursive_call_fails : forall p e b n nm m k s,
+  Interp.n_kind (Interp.nd p n) = Interp.KCallMacro nm -> Interp.macro_lookup (Interp.macros s) nm = Some m ->
+  Interp.would_recurse p s nm m = true -> Interp.dispatch p e b n k s = Interp.Raise k s.
+Proof. exact recursive_call_fails. Qed.
+Print Assumptions C41_recursive_call_fails.
+
+(* PARTIAL: "once per call, lines in order" is covered by the correspondence of the interpreter model (C02's monitors run on
+   methods with macros) and by the run stream below, not by a theorem; "a started macro may not be edited or removed"
+   belongs to the live-edit validation (C01). The run stream of the check observes on
    the real engine that a method of macro calls either fails or reaches its end (never stalls) and fails exactly when an
    executed call is undefined or would recurse. *)
